@@ -368,8 +368,12 @@ func (c *Ctx) ruleStepErrors(rule string) {
 			if !match {
 				continue
 			}
-			found++
 			e := core.RetVal(r, ei)
+			// the error of a verdict helper handed on unchanged: the helper's own returns are examined above
+			if hc, _, isCall := core.CallResult(core.Unwrap(e)); isCall && r.Return.Parent() == fn && c.verdictHelper(fn, hc) != nil {
+				continue
+			}
+			found++
 			tn := ""
 			if mi, ok := e.(*ssa.MakeInterface); ok {
 				if n, ok := mi.X.Type().(*types.Named); ok {
